@@ -257,6 +257,10 @@ package core
 //@   ensures cpinv(p) && pM(p) <= old(pM(p))
 //@   ensures progress: !err ==> pM(p) < old(pM(p))
 //@   ensures nesting_is_balanced: p.depth == old(p.depth)
+// (C06) a comment is white space wherever a token may stand - in front of a key and in front of the closing '>>' alike: the
+// dictionary is never refused, and never ended, on a comment token
+//@   atreturn#5 a_comment_is_never_taken_for_a_key: p.currentToken.Type != TokenComment
+//@   atreturn#4 a_comment_is_never_taken_for_the_end_of_input: p.currentToken.Type != TokenComment
 //@   loop 0:
 //@     invariant cpinv(p) && pM(p) < old(pM(p)) && p.depth == old(p.depth)
 //@     decreases pM(p)
